@@ -285,6 +285,42 @@ def followerRules : List LStep → Nat → Option (Nat × String)
     | some b => some (k, b)
     | none => followerRules rest (k + 1)
 
+/-- C13, on the observed run: time is counted in ticks of 250 ms (lease 250 ms); a follower's last
+    answer is the latest step in which the harness let it answer an AppendEntries or a heartbeat
+    (or the step its replication routine appeared).  (i) a tick that ends two leases or more after
+    the last answer of every other voter leaves no leader (checks are at most one lease apart);
+    (ii) a tick never deposes a leader that has, together with itself, a quorum of voters whose
+    last answer is at most one lease old at the end of the tick. -/
+def leaseRule : List LStep → Nat → List (Nat × Nat) → Nat → Option (Nat × String)
+  | [], _, _, _ => none
+  | s :: rest, now, contacts, k =>
+    let now' := match s.ev with | .tick => now + 250 | _ => now
+    -- answers given in this step, and routines that appeared
+    let contacts1 : List (Nat × Nat) := match s.ev with
+      | .ack p _ => if isLeading s.pre then (p, now) :: contacts.filter (·.1 ≠ p) else contacts
+      | .hb p a => if a ≠ .fail then (p, now) :: contacts.filter (·.1 ≠ p) else contacts
+      | .start => []
+      | _ => contacts
+    let peersNow : List Nat := (s.post.dump.map (·.peers)).getD []
+    let contacts2 := contacts1 ++ (peersNow.filter (fun p => !(contacts1.any (·.1 = p)))).map (fun p => (p, now))
+    let bad : Option String :=
+      match s.ev with
+      | .tick =>
+        if ¬ isLeading s.pre ∨ s.post.view.dead then none else
+        let c := s.pre.view.vol.latest
+        let others := (voterIds c).filter (· ≠ selfId)
+        let age (p : Nat) : Nat := now' - ((contacts2.find? (·.1 = p)).map (·.2)).getD 0
+        let self := if hasVote c selfId then 1 else 0
+        if isLeading s.post ∧ quorumOf c > self ∧ others.all (fun p => age p ≥ 500) then
+          some "leader-kept-its-lease-for-two-leases-without-a-quorum"
+        else if ¬ isLeading s.post ∧ self + (others.filter (fun p => age p ≤ 250)).length ≥ quorumOf c then
+          some "leader-deposed-by-the-lease-although-a-quorum-answered-within-it"
+        else none
+      | _ => none
+    match bad with
+    | some b => some (k, b)
+    | none => leaseRule rest now' contacts2 (k + 1)
+
 /-! ## C09 -/
 
 /-- a VerifyLeader answered nil: between the call and the answer a quorum of the voters (the
